@@ -50,6 +50,13 @@ CASES = [
  ("local named like the recursion hook", sub("results = []\n\n    for node_from", "rec_ = 0\n    results = []\n\n    for node_from"), "reserved"),
  ("`set` rebound", lambda s: s + "\n\ndef set(x):\n    return list(x)\n", "Unsupported"),
  ("sorted iteration (outside the subset)", sub("for node_from in starts:", "for node_from in sorted(starts):"), "Unsupported"),
+ ("module-level function defined twice",
+  sub("def toposort_all(", "def _toposort_all_bt(starts, graph, indeg):\n    return []\n\n\ndef toposort_all("), "defined twice"),
+ ("module-level function re-bound by an import",
+  lambda s: s + "\n\nfrom graphlib import toposort\n", "defined twice"),
+ ("call of a name that is a variable of the function",
+  sub("    results = _toposort_all_bt(starts, graph, indeg)\n", "    results = _toposort_all_bt(starts, graph, indeg)\n    _toposort_all_bt = results\n"),
+  "a variable of the function"),
  ("harmless: restore loop before the sub-results are used",
   sub("        for node_to in graph[node_from]:\n            indeg[node_to] += 1\n", "        for node_to in graph[node_from]:\n            indeg[node_to] = indeg[node_to] + 1\n"), None),
  ("harmless: keys() spelled out", sub("starts: Set[Node] = set(graph)", "starts: Set[Node] = set(graph.keys())"), None),
